@@ -1192,6 +1192,16 @@ def _frame_job(v):
                             if size is None and gap is None and pos is None:
                                 continue
                             out["over"][(shape, m, size, gap, pos)] = _image_eval(pe, f, n, m, shape, size, gap, pos)
+    # degenerate option values: the renderer must still return (whatever it draws); only a panic is judged here
+    out["extreme"] = {}
+    if v in (1, 40):
+        nan, inf = float("nan"), float("inf")
+        big = float(n + 40)
+        for m in (0, 4):
+            for size, gap, pos in ((nan, None, None), (inf, None, None), (big, None, None), (float(n + 2 * m), None, None), (0.0, None, None),
+                                   (-3.0, None, None), (None, nan, None), (None, -1.0, None), (None, big, None), (5.0, inf, None),
+                                   (None, None, (nan, nan)), (None, None, (-5.0, big)), (big, big, (big, big)), (1e-9, 1e-9, None)):
+                out["extreme"][("Square" if m else "Circle", m, size, gap, pos)] = _image_eval(pe, f, n, m, "Square" if m else "Circle", size, gap, pos)
     return out
 
 
@@ -1290,6 +1300,14 @@ def c18_r2(ctx, f, rid="C18.R2"):
                     groups.add("override/" + b[0], inst, b[1], b[2])
             else:
                 n_ok += 1
+        for key, (kind, o) in sorted(job.get("extreme", {}).items(), key=lambda kv: str(kv[0])):
+            shape, m, size, gap, pos = key
+            inst = "V%02d/%s/margin=%d/size=%s/gap=%s/pos=%s" % (v, shape, m, size, gap, pos)
+            if kind == "diverge":
+                groups.add("panics-on-degenerate-option-values", inst, "markup (any)", o)
+            elif kind == "ret":
+                n_ok += 1
+            # anything else: the evaluator cannot follow this value (no verdict, not counted)
     if n_ok:
         ctx.ok(rid, "%d (version, shape, margin[, overrides]) placements satisfy every clause" % n_ok, n=n_ok)
     groups.emit(ctx, rid, SVGB + "::image", where_fn(fn), fn.path,
@@ -1635,6 +1653,10 @@ def _encode_configs(tier):
                         cfgs.append((mode, v, "L", n))
             for l in ref.LEVELS:
                 cfgs.append((mode, 40, l, ref.capacity(40, l, mode)))
+                # the largest symbols nearly empty and half full: the whole pad run, up to the last data codeword
+                for v_ in (40, 39):
+                    for n in (0, 1, ref.capacity(v_, l, mode) // 2):
+                        cfgs.append((mode, v_, l, n))
             for v in (9, 10, 26, 27):
                 cfgs.append((mode, v, "M", ref.capacity(v, "M", mode)))
     return sorted(set(cfgs))
